@@ -124,12 +124,12 @@ func noDiscovery(set []kmip.ProtocolVersion) c13server {
 
 // c13Cell runs one configuration: dial + one follow-up request. Returns adopted version (nil if dial failed) and the
 // header version the server saw on the follow-up request.
-func c13Cell(cluster bool, client []kmip.ProtocolVersion, enforce *kmip.ProtocolVersion, srv c13server) (adopted, seen, seenClone *kmip.ProtocolVersion, dialErr error, panicked any) {
+func c13Cell(cluster bool, client []kmip.ProtocolVersion, enforce *kmip.ProtocolVersion, srv c13server) (adopted, seen, seenClone, seenOther *kmip.ProtocolVersion, dialErr error, panicked any) {
 	opts := []kmipclient.Option{kmipclient.WithKmipVersions(client...)}
 	if enforce != nil {
 		opts = append(opts, kmipclient.EnforceVersion(*enforce))
 	}
-	return c13DialVia(cluster, opts, srv)
+	return c13DialFull(cluster, opts, srv)
 }
 
 // c13Dial: one DialContext with the given options against srv, plus one follow-up request.
@@ -142,10 +142,19 @@ func c13Dial(cfg []kmipclient.Option, srv c13server) (adopted *kmip.ProtocolVers
 // (a clone inherits the negotiated version without negotiating) and sends one request through the clone. seen / seenClone
 // are the header versions the server saw on those two requests.
 func c13DialVia(cluster bool, cfg []kmipclient.Option, srv c13server) (adopted, seen, seenClone *kmip.ProtocolVersion, dialErr error, panicked any) {
+	adopted, seen, seenClone, _, dialErr, panicked = c13DialFull(cluster, cfg, srv)
+	return
+}
+
+// c13DialFull also reports, in seenOther, the first header version differing from the adopted one among the non-Activate
+// requests (Discover Versions sent by the application, alone and in a batch) received after Dial returned.
+func c13DialFull(cluster bool, cfg []kmipclient.Option, srv c13server) (adopted, seen, seenClone, seenOther *kmip.ProtocolVersion, dialErr error, panicked any) {
 	var mu sync.Mutex
 	var wg sync.WaitGroup
 	var conns []net.Conn
 	var acts []kmip.ProtocolVersion
+	var postDial bool                  // set once Dial has returned
+	var postOther []kmip.ProtocolVersion // header versions of the non-Activate requests received after that
 	dialer := func(ctx context.Context) (net.Conn, error) {
 		a, b := net.Pipe()
 		mu.Lock()
@@ -161,11 +170,13 @@ func c13DialVia(cluster bool, cfg []kmipclient.Option, srv c13server) (adopted, 
 					_ = b.Close()
 					return
 				}
+				mu.Lock()
 				if _, ok := req.BatchItem[0].RequestPayload.(*payloads.ActivateRequestPayload); ok {
-					mu.Lock()
 					acts = append(acts, req.Header.ProtocolVersion)
-					mu.Unlock()
+				} else if postDial {
+					postOther = append(postOther, req.Header.ProtocolVersion)
 				}
+				mu.Unlock()
 				if err := st.Send(srv.handle(&req)); err != nil {
 					_ = b.Close()
 					return
@@ -194,12 +205,24 @@ func c13DialVia(cluster bool, cfg []kmipclient.Option, srv c13server) (adopted, 
 		cl, err = kmipclient.DialContext(context.Background(), "pipe", opts...)
 	}
 	if err != nil {
-		return nil, nil, nil, err, nil
+		return nil, nil, nil, nil, err, nil
 	}
 	v := cl.Version()
 	adopted = &v
-	_, _ = cl.Request(context.Background(), &payloads.ActivateRequestPayload{UniqueIdentifier: "x"})
 	mu.Lock()
+	postDial = true
+	mu.Unlock()
+	_, _ = cl.Request(context.Background(), &payloads.ActivateRequestPayload{UniqueIdentifier: "x"})
+	// a Discover Versions request sent by the application after connecting is a subsequent request like any other
+	_, _ = cl.Request(context.Background(), &payloads.DiscoverVersionsRequestPayload{})
+	_, _ = cl.Batch(context.Background(), &payloads.DiscoverVersionsRequestPayload{ProtocolVersion: []kmip.ProtocolVersion{kmip.V1_2}}, &payloads.ActivateRequestPayload{UniqueIdentifier: "z"})
+	mu.Lock()
+	for _, pv := range postOther {
+		if pv != v && seenOther == nil {
+			bad := pv
+			seenOther = &bad
+		}
+	}
 	if len(acts) > 0 {
 		s := acts[len(acts)-1]
 		seen = &s
@@ -217,7 +240,7 @@ func c13DialVia(cluster bool, cfg []kmipclient.Option, srv c13server) (adopted, 
 		_ = cl2.Close()
 	}
 	_ = cl.Close()
-	return adopted, seen, seenClone, nil, nil
+	return adopted, seen, seenClone, seenOther, nil, nil
 }
 
 func maxCommon(a, b []kmip.ProtocolVersion) *kmip.ProtocolVersion {
@@ -298,7 +321,7 @@ func runC13(c *vlib.Check) {
 			c.Sample(label)
 		}
 		rep := map[string]any{"kind": "negotiation-cell", "cell": label}
-		adopted, seen, seenClone, derr, pv := c13Cell(cluster, k.client, k.enforce, srv)
+		adopted, seen, seenClone, seenOther, derr, pv := c13Cell(cluster, k.client, k.enforce, srv)
 		if pv != nil {
 			sig := "panic:" + k.desc
 			if cluster {
@@ -306,6 +329,9 @@ func runC13(c *vlib.Check) {
 			}
 			c.Violation(sig, fmt.Sprintf("dial panicked: %v — %s", pv, label), rep)
 			return
+		}
+		if derr == nil && adopted != nil && seenOther != nil {
+			c.Violation("follow-up-header-version:discover-versions", fmt.Sprintf("a Discover Versions request sent after connecting carried version %v, the client had adopted %v — %s", *seenOther, *adopted, label), rep)
 		}
 		if derr == nil && adopted != nil && (seenClone == nil || *seenClone != *adopted) {
 			c.Violation("clone-header-version", fmt.Sprintf("a clone of the client sent its request with version %v, the client had adopted %v — %s", seenClone, *adopted, label), rep)
